@@ -203,6 +203,34 @@ def lofMat (tnw : Bool) (pos vel : V3) : M3 :=
     let s := V3.cross w q
     (M3.ofRows q s w).tr
 
+/-- an orbit-attached local orbital orientation as the code builds it (`LocalOrbitalOrientation._to_parent`): the reference state
+(`p`, `v`: the cartesian point at the date) is given in a frame of orientation `gori` with the centre of the parent; a COPY of it is
+converted to the parent (`sv.copy(form="cartesian", frame=self.parent)`), then `to_local(orient, sv).T`.  Nothing is written back:
+the specification the centre link reads (`CLink`) is the same before and after. -/
+structure LofSpec where
+  child : Nat
+  parent : Nat
+  tnw : Bool
+  gori : Nat
+  p : V3
+  v : V3
+  /-- a reference WITHOUT propagator is not brought to the date of the conversion: `sv.copy(frame=parent)` converts it at ITS OWN
+  date (`orbit.date` in `Frame.transform`) — the date arguments of that date; `none` = the date of the conversion (propagated reference) -/
+  own : Option DateArgs
+
+def resolveLof (D : DateArgs) (names : List String) (hist : List (Nat × Nat)) (extras : List Extra) (l : LofSpec) : Option Extra :=
+  (orientConvert (l.own.getD D) names hist extras l.gori l.parent).map (fun m =>
+    let x := m.apply l.p l.v
+    (⟨l.child, l.parent, lofMat l.tnw x.1 x.2⟩ : Extra))
+
+/-- the providers of all orbit-attached orientations of a request, in creation order (a later one may hang below an earlier one) -/
+def resolveLofs (D : DateArgs) (names : List String) (hist : List (Nat × Nat)) : List Extra → List LofSpec → Option (List Extra)
+  | ex, [] => some ex
+  | ex, l :: ls =>
+    match resolveLof D names hist ex l with
+    | some e => resolveLofs D names hist (ex ++ [e]) ls
+    | none => none
+
 /-! ## centres and `Frame.transform` -/
 
 /-- `Center.add_link(parent, orientation, offset)`: the offset (evaluated at the date; since 405734d the *cartesian* coordinates of
@@ -248,13 +276,14 @@ def frameTransform (D : DateArgs) (names : List String) (hist : List (Nat × Nat
     some (x.1.add off.1, x.2.add off.2)
   | _, _ => none
 
-/-! ## histories of calls: the memo of `iau1980._nutation` (beyond/utils/memoize.py, Model/Memo.lean)
+/-! ## histories of calls: the memo of `iau1980._nutation_series` (beyond/utils/memoize.py, Model/Memo.lean)
 
-The only memoized function of beyond/frames whose value depends on the date is `_nutation(date, eop_correction, terms)`; the
-providers call it as `_nutation(date, False, 106)` (PEF_to_TOD through `equinox`, TOD_to_MOD) and `_nutation(date, False, 4)`
-(TEME_to_TOD).  Its key is `str((date, False, terms))`: the *text* of the date (calendar instant in the scale of the date, and the
-name of the scale) and the number of terms.  Everything else a conversion reads (UT1, polar motion, LOD, dX/dY, the CIO series,
-precession, the frame graph, the state) is recomputed at every call. -/
+The only memoized function of beyond/frames whose value depends on the date is `_nutation_series(ttt, terms)` (since deb035a; before,
+`_nutation(date, eop_correction, terms)` itself was memoized, under the *text* of the date — Witness/C02.lean keeps that behaviour as a
+regression witness).  The providers reach it through `_nutation(date, False, 106)` (PEF_to_TOD through `equinox`, TOD_to_MOD) and
+`_nutation(date, False, 4)` (TEME_to_TOD).  Its key is `str((ttt, terms))`: the TT century of the date and the number of terms — all the
+series reads (`_tab(terms)`, itself memoized under `terms`, reads the first `terms` rows of tab5.1).  Everything else a conversion reads
+(UT1, polar motion, LOD, dX/dY, the CIO series, precession, the frame graph, the state) is recomputed at every call. -/
 
 /-- the triple `_nutation(date, False, terms)` returns (degrees) -/
 structure Nut where
@@ -269,28 +298,32 @@ def nut4 (D : DateArgs) : Nut := ⟨D.eps4, D.dpsi4, D.deps4⟩
 def withNut (D : DateArgs) (a b : Nut) : DateArgs :=
   { D with eps106 := a.eps, dpsi106 := a.dpsi, deps106 := a.deps, eps4 := b.eps, dpsi4 := b.dpsi, deps4 := b.deps }
 
-/-- `_nutation(date, False, len rows)` computed from scratch: a function of the TT century of the date only -/
-def nutOf (ttt : R) (rows : List (List R)) : Nut := ⟨epsBar80 ttt, (nutSeries80 ttt rows).1, (nutSeries80 ttt rows).2⟩
+/-- `_nutation_series(ttt, terms)` computed from scratch on the first `terms` rows of tab5.1: a function of its key -/
+def nutOf (rows : List (List R)) (k : R × Nat) : Nut :=
+  ⟨epsBar80 k.1, (nutSeries80 k.1 (rows.take k.2)).1, (nutSeries80 k.1 (rows.take k.2)).2⟩
 
-/-- one `Orientation.convert_to(date, new_orient)` request: `text` identifies `repr(date)`; `D` is what the providers read from the
-date when nothing is cached — computed from the instant and the EOP record attached to the date — `D.eps106 … D.deps4` being
-`_nutation(date, False, 106 / 4)` computed from scratch (`nutOf D.ttt rows`) -/
+/-- `iau1980._nutation(date, True, terms)` : the tail `if eop_correction:` (translated from the source: `nutCorr80`) on top of the series -/
+def nutCorrected (n : Nut) (dpsi_mas deps_mas : R) : Nut :=
+  ⟨n.eps, n.dpsi + (nutCorr80 dpsi_mas deps_mas).getD 0 0, n.deps + (nutCorr80 dpsi_mas deps_mas).getD 1 0⟩
+
+/-- one `Orientation.convert_to(date, new_orient)` request: `D` is what the providers read from the date — computed from the instant
+and the EOP record attached to the date; its six nutation fields are placeholders filled from the series -/
 structure Call where
-  text : Nat
   D : DateArgs
   hist : List (Nat × Nat)
   extras : List Extra
   a : Nat
   b : Nat
 
-/-- what the call returns when nothing was computed before: a function of the call alone -/
-def callPure (names : List String) (c : Call) : Option T6 := orientConvert c.D names c.hist c.extras c.a c.b
+/-- what the call returns when nothing was computed before: a function of the call alone (`rows` = tab5.1, a constant of the library) -/
+def callPure (names : List String) (rows : List (List R)) (c : Call) : Option T6 :=
+  orientConvert (withNut c.D (nutOf rows (c.D.ttt, 106)) (nutOf rows (c.D.ttt, 4))) names c.hist c.extras c.a c.b
 
-/-- `_nutation._cache`: (text of the date, terms) ↦ triple -/
-abbrev NutMemo := List ((Nat × Nat) × Nut)
+/-- `_nutation_series._cache`: (TT century, terms) ↦ triple -/
+abbrev NutMemo := List ((R × Nat) × Nut)
 
-/-- `memoizer` for `_nutation`: the argument is the pair (key, what the bare function would compute now) -/
-def memoGet (m : NutMemo) (k : Nat × Nat) (v : Nut) : Nut × NutMemo := Memo.call Prod.fst Prod.snd m (k, v)
+/-- `memoizer` for `_nutation_series` -/
+def memoGet (rows : List (List R)) (m : NutMemo) (k : R × Nat) : Nut × NutMemo := Memo.call id (nutOf rows) m k
 
 /-- which of the two memo keys the loop of `convert_to` reaches: (`terms = 106`, `terms = 4`) — decided by the edges on the route -/
 def touches (names : List String) (hist : List (Nat × Nat)) (a b : Nat) : Bool × Bool :=
@@ -305,16 +338,16 @@ def touches (names : List String) (hist : List (Nat × Nat)) (a b : Nat) : Bool 
       (has "PEF" "TOD" || has "TOD" "MOD", has "TEME" "TOD")
     | _ => (false, false)
 
-/-- one call inside a process whose `_nutation` memo is `m`: the triples come from the memo where the route consults it -/
-def sessionStep (names : List String) (m : NutMemo) (c : Call) : Option T6 × NutMemo :=
+/-- one call inside a process whose `_nutation_series` memo is `m`: the triples come from the memo where the route consults it -/
+def sessionStep (names : List String) (rows : List (List R)) (m : NutMemo) (c : Call) : Option T6 × NutMemo :=
   let t := touches names c.hist c.a c.b
-  let r106 := if t.1 then memoGet m (c.text, 106) (nut106 c.D) else (nut106 c.D, m)
-  let r4 := if t.2 then memoGet r106.2 (c.text, 4) (nut4 c.D) else (nut4 c.D, r106.2)
+  let r106 := if t.1 then memoGet rows m (c.D.ttt, 106) else (nutOf rows (c.D.ttt, 106), m)
+  let r4 := if t.2 then memoGet rows r106.2 (c.D.ttt, 4) else (nutOf rows (c.D.ttt, 4), r106.2)
   (orientConvert (withNut c.D r106.1 r4.1) names c.hist c.extras c.a c.b, r4.2)
 
 /-- the results of a history of calls -/
-def sessionRun (names : List String) : NutMemo → List Call → List (Option T6)
+def sessionRun (names : List String) (rows : List (List R)) : NutMemo → List Call → List (Option T6)
   | _, [] => []
-  | m, c :: cs => (sessionStep names m c).1 :: sessionRun names (sessionStep names m c).2 cs
+  | m, c :: cs => (sessionStep names rows m c).1 :: sessionRun names rows (sessionStep names rows m c).2 cs
 
 end BeyondVerif.F
